@@ -56,9 +56,16 @@ def mixed(rng, n, heavy=True):
                 ops.append(rng.choice(["M:6c:%s" % E.hx(bytes(rng.randrange(256) for _ in range(rng.randrange(0, 80)))),
                                        "S:73:%x" % rng.randrange(R), "P:70:%s" % E.tok(rng.choice(pts)), "C:63"]))
             out.append(("tr %s %s C:78" % (E.hx(b"own-transcript"), " ".join(ops)), "transcript"))
-        elif k < 0.94:
+        elif k < 0.91:
             b = rng.randrange(2 ** 256).to_bytes(32, "big")
             out.append(("frdec %s %s" % (rng.choice(["be", "le", "lec"]), E.hx(b)), "scalar-decode"))
+        elif k < 0.925:
+            v = rng.choice([R + 5, 2 ** 256 - 1, rng.randrange(R, 2 ** 256), rng.randrange(R), R, 2 ** 300 + 7])
+            out.append(("frbig %x%s" % (v, rng.choice(["", " neg"])), "scalar-from-bigint"))
+        elif k < 0.94:
+            # verification calls that fail in different places (inside the IPA check, in the shape checks)
+            out.append((rng.choice(["mpvs 73 7 7 1 1 1", "mpvs 73 9 9 2 2 2", "mpvs 73 8 7 1 1 1", "mpvs 73 8 8 2 1 2", "mpvs 73 7 7 3 3 3"]),
+                        "verify-failing"))
         else:
             out.append(("dod %d r:%x" % (rng.randrange(256), rng.randrange(2 ** 64)), "divide-on-domain"))
     return out
